@@ -1554,7 +1554,14 @@ class Quantity(metaclass=QuantityMeta):
 
     def __hash__(self) -> int:
         """hash(self)"""
-        return hash((self.amount, self.unit))
+        unit = self.unit
+        # noinspection PyProtectedMember
+        equiv = unit._equiv
+        if self.__class__.ref_unit is None or equiv is None:
+            return hash((self.amount, unit))
+        # Quantities that compare equal (i. e. have the same amount in terms
+        # of the reference unit) must have the same hash value.
+        return hash((self.amount * equiv, self.__class__))
 
     def __abs__(self: Q) -> Q:
         """abs(self) -> self.Quantity(abs(self.amount), self.unit)"""
